@@ -63,3 +63,34 @@ func TestC17R(t *testing.T) {
 	common.Drive(t, rec, func(rt *rapid.T) *Plan { return genPlanC17(rt, true) }, run)
 	completed = true
 }
+
+func TestC10R(t *testing.T) {
+	rec := common.NewRec("C10", "race")
+	completed := false
+	defer func() { rec.Finish(completed) }()
+	run := func(p *Plan) *common.Fail {
+		rec.InFlight(p)
+		res := runReal(p)
+		rec.Landed()
+		if res.ConnErr != "" {
+			rec.Inconclusive("initial connect failed")
+			return nil
+		}
+		if f := oracleC10(p, res, false); f != nil {
+			return f
+		}
+		if gs := waitNoLibGoroutines(2 * time.Second); len(gs) > 0 {
+			f := common.Failf("goroutine-leak", "%d goroutine(s) started by the library are still alive 2 s after Close returned", len(gs))
+			f.Extra = map[string]any{"goroutines": strings.Join(gs, "\n\n"), "trace": Dump(res.Events, 60)}
+			return f
+		}
+		if classifyC10(p, res, rec) {
+			rec.NonTrivial(common.HashJSON(p))
+		}
+		rec.Class("closers=" + string(rune('0'+len(p.Closers))))
+		rec.Sample("race", map[string]any{"plan": p})
+		return nil
+	}
+	common.Drive(t, rec, func(rt *rapid.T) *Plan { return genPlanC10R(rt) }, run)
+	completed = true
+}
